@@ -282,11 +282,49 @@ func (it *Interp) load(p Ptr) Value {
 			v = c.F[i]
 		case *ArrayV:
 			v = c.E[i]
+		case *StrBytes: // b[i] of a []byte that is a view over an abstract string
+			return it.strByte(c.s, i)
+		case *ByteBuf:
+			return it.strByte(c.s, i)
 		default:
 			panic(fmt.Sprintf("load path into %T", v))
 		}
 	}
 	return copyVal(v)
+}
+
+// strByte: s[i]. Exact for concrete strings and inside a leading literal; the first byte of a symbolic atom is the
+// attribute char0 of that atom (related to its other attributes by the facts asserted where they are introduced);
+// any other position of a symbolic atom is unsupported.
+func (it *Interp) strByte(s *StrV, i int) Value {
+	n := s.norm()
+	if len(n.A) > 0 && n.A[0].Sym == "" && n.A[0].Line == nil && i < len(n.A[0].Lit) {
+		return int64(n.A[0].Lit[i])
+	}
+	if c, ok := n.isConc(); ok {
+		if i >= len(c) {
+			panic(&goPanic{msg: "index out of range"})
+		}
+		return int64(c[i])
+	}
+	if i == 0 && len(n.A) > 0 && n.A[0].Sym != "" {
+		a := n.A[0].Sym
+		if !it.sol.decl["char0"] {
+			it.sol.decl["char0"] = true
+			it.sol.send("(declare-fun char0 (Str) (_ BitVec 8))")
+		}
+		// an empty first atom would make this the first byte of what follows; require it non-empty on this path
+		nonEmpty := &Sym{T: "(bvugt (len " + a + ") (_ bv0 64))", S: "Bool"}
+		if !it.branch(nonEmpty, "char0-nonempty") {
+			if len(n.A) == 1 {
+				panic(&goPanic{msg: "index out of range [0] with length 0"})
+			}
+			it.unsup("first byte of a string whose first atom is empty")
+		}
+		return &Sym{T: "(char0 " + a + ")", S: "BV8"}
+	}
+	it.unsup("byte %d of a symbolic string", i)
+	return nil
 }
 
 func (it *Interp) store(p Ptr, val Value) {
@@ -1297,6 +1335,7 @@ func (it *Interp) index(x, idx Value) Value {
 			}
 			return int64(s[i])
 		}
+		return it.strByte(c, int(i))
 	}
 	it.unsup("index %T", x)
 	return nil
